@@ -14,6 +14,10 @@
 #undef malloc
 #undef realloc
 #undef free
+/* <stdlib.h> was read with the wrapping macros in force: declare the real functions for the wrappers below */
+void *malloc(size_t);
+void *realloc(void *, size_t);
+void free(void *);
 #if VH_CBMC
 extern int vh_utf8;
 #else
@@ -84,6 +88,20 @@ VH_MAIN_BEGIN
     rc = _wcsnatcmp_s_chk(a, 3, b, 3, 1, &result, BOS_UNKNOWN, BOS_UNKNOWN);
 #endif
     failure = rc != EOK;
+#elif SCEN == 7
+    /* canonical reordering with more than 10 combining marks in a row: the mark array moves to the heap (malloc, then realloc).
+       NDMAX 16: the result fits; NDMAX 12: the no-space exit is taken with the heap array in use */
+    wchar_t *src = (wchar_t *)vh_alloc(16 * sizeof(wchar_t)), *dest = (wchar_t *)vh_alloc(NDMAX * sizeof(wchar_t));
+    src[0] = L'a';
+    for (unsigned i = 1; i <= NMARKS; i++) src[i] = 0x301;
+    src[NMARKS + 1] = 0;
+    for (unsigned i = 0; i < NDMAX; i++) dest[i] = 0x55;
+    rc = _wcsnorm_reorder_s_chk(dest, NDMAX, src, NMARKS + 1, BOS_UNKNOWN);
+    failure = rc != EOK;
+    cleared = dest[0] == 0;
+    /* marks of one class keep their order: the reordered string equals the source (C17) */
+    if (!failure)
+        for (unsigned i = 0; i < NMARKS + 2; i++) CHECK("C17", dest[i] == src[i], "canonical reordering changed a sequence of marks of one class (heap array)");
 #else
     wchar_t *dest = (wchar_t *)vh_alloc(520 * sizeof(wchar_t));
     dest[0] = 0x55; dest[1] = 0x55;
@@ -93,7 +111,7 @@ VH_MAIN_BEGIN
 #endif
     if (vh_failed_any) {
         CHECK("C20", failure, "an internal allocation failed but the call does not report a failure");
-#if SCEN <= 3 || SCEN == 6
+#if SCEN <= 3 || SCEN == 6 || SCEN == 7
         CHECK("C20", cleared, "allocation failure: dest not cleared");
 #endif
     }
